@@ -41,6 +41,13 @@ type ArrV struct {
 	Elem types.Type
 }
 
+// SoAV is the content of a symbolic-length array of structs / fixed arrays whose leaves are all scalars at the
+// current layer ("option struct-slices"): one SMT array per leaf, indexed by the position in the slice.
+type SoAV struct {
+	Elems []Value // *ArrV (scalar component) or *SoAV (nested aggregate), in field / index order
+	Elem  types.Type
+}
+
 type FuncV struct {
 	Fn       *ssa.Function
 	Bindings []Value
